@@ -209,7 +209,7 @@ def build_e2e(ck, rng, tier):
 
 def absorb(ck, r, part_filter=None):
     """harness result -> verdicts"""
-    for v in r.get('violations') or []:
+    for v in (r.get('violations') or [])[:3]:
         ck.violation('%s/%s (%s): %s' % (v['part'], v['kind'], v['name'], v['detail']), v['replay'])
     for d in r.get('drift') or []:
         print('SPEC-DRIFT module=EventConn at=%s' % d)
@@ -218,7 +218,8 @@ def absorb(ck, r, part_filter=None):
         ck.notes.append(n)
 
 
-def run_trace_validation(ck, trace_file, wd):
+def run_trace_validation(trace_file):
+    """-> dict(ok, nruns, events, states, wall, line, violation, ctx, error) or None when there is nothing to validate"""
     lines = [json.loads(l) for l in open(trace_file) if l.strip()]
     total, ends = 0, []
     for ev in lines:
@@ -226,28 +227,36 @@ def run_trace_validation(ck, trace_file, wd):
             total += ev['size']
             ends.append(total)
     if not ends:
-        return
+        return None
     params = ('---- MODULE EventConnTraceParams ----\nTracePath == "%s"\nTraceN == %d\nTraceMsgEnds == {%s}\n====\n'
               % (trace_file, total, ', '.join(map(str, ends))))
     tv = tlc.run('Trace_EventConn', 'trace.cfg', workers=1, timeout=900,
                  extra_files={'trace.cfg': TRACE_CFG, 'EventConnTraceParams.tla': params})
-    nruns = sum(1 for ev in lines if ev['ev'] == 'reset')
-    if tv.ok:
-        ck.add('traces_validated_against_impl', nruns)
-        ck.cov['real_write_traces_accepted'] = nruns
-        ck.cov['real_write_trace_events'] = len(lines)
-        ck.cov['tlc_configs'].append('Trace_EventConn: %d recorded write-loop runs, %d events, %d states, %.1fs'
-                                     % (nruns, len(lines), tv.distinct, tv.wall))
-    elif tv.violation:
+    out = dict(ok=tv.ok, nruns=sum(1 for ev in lines if ev['ev'] == 'reset'), events=len(lines), states=tv.distinct,
+               wall=tv.wall, violation=tv.violation, error=tv.error or tv.out[-400:], line=0, ctx=[])
+    if tv.violation:
         m = re.search(r'TRACE-REJECTED-AT-LINE", (\d+)', tv.out)
-        line = int(m.group(1)) if m else 0
-        ctx = lines[max(0, line - 4):line] if line else []
+        out['line'] = int(m.group(1)) if m else 0
+        out['ctx'] = lines[max(0, out['line'] - 4):out['line']] if out['line'] else []
+    return out
+
+
+def apply_trace_validation(ck, tv):
+    if tv is None:
+        return
+    if tv['ok']:
+        ck.add('traces_validated_against_impl', tv['nruns'])
+        ck.cov['real_write_traces_accepted'] = tv['nruns']
+        ck.cov['real_write_trace_events'] = tv['events']
+        ck.cov['tlc_configs'].append('Trace_EventConn: %d recorded write-loop runs, %d events, %d states, %.1fs'
+                                     % (tv['nruns'], tv['events'], tv['states'], tv['wall']))
+    elif tv['violation']:
         print('SPEC-DRIFT module=EventConn at=write trace line %s: the real write loop took a step the specification '
-              'does not allow (%s); context %s' % (line or '?', tv.violation, json.dumps(ctx)))
+              'does not allow (%s); context %s' % (tv['line'] or '?', tv['violation'], json.dumps(tv['ctx'])))
         ck.cov['spec_drift'] = True
-        ck.notes.append('write-loop trace rejected at line %s (%s)' % (line or '?', tv.violation))
+        ck.notes.append('write-loop trace rejected at line %s (%s)' % (tv['line'] or '?', tv['violation']))
     else:
-        ck.inconc('trace validation did not complete: ' + (tv.error or tv.out[-400:]))
+        ck.inconc('trace validation did not complete: ' + tv['error'])
 
 
 def run(prop, tier, seed, replay=None):
@@ -281,149 +290,176 @@ def run(prop, tier, seed, replay=None):
     wrep = dict(c1=2, c2=1, sub=1) if quick else dict(c1=2, c2=2, sub=2)
     from concurrent.futures import ThreadPoolExecutor
     nw = 4
-    with ThreadPoolExecutor(max_workers=7) as ex:
-        f_small = ex.submit(tlc.dump_graph, 'EventConn', 'mc.cfg', 900, nw, {'mc.cfg': cfg(**small)})
-        f_small2 = ex.submit(tlc.dump_graph, 'EventConn', 'mc.cfg', 900, nw, {'mc.cfg': cfg(**small2)}) if not quick else None
-        f_unit = ex.submit(tlc.dump_graph, 'EventConn', 'mc.cfg', 900, nw, {'mc.cfg': cfg(**unitc)})
-        f_logic = ex.submit(tlc.run, 'EventConn', 'mc.cfg', nw, 900, {'mc.cfg': cfg(**logic)})
-        f_wfull = ex.submit(tlc.run, 'EventConnWriters', 'w.cfg', nw, 900, {'w.cfg': WCFG % dict(eager='FALSE', **wfull)})
-        f_wrep = ex.submit(tlc.dump_graph, 'EventConnWriters', 'w.cfg', 900, nw, {'w.cfg': WCFG % dict(eager='TRUE', **wrep)})
-        f_sim = ex.submit(tlc.simulate, 'EventConn', 'mc.cfg', 30 if quick else 300, 80, ck.seed, 600,
-                          {'mc.cfg': cfg(**simc)})
+    ex = ThreadPoolExecutor(max_workers=9)
+    f_small = ex.submit(tlc.dump_graph, 'EventConn', 'mc.cfg', 900, nw, {'mc.cfg': cfg(**small)})
+    f_small2 = ex.submit(tlc.dump_graph, 'EventConn', 'mc.cfg', 900, nw, {'mc.cfg': cfg(**small2)}) if not quick else None
+    f_unit = ex.submit(tlc.dump_graph, 'EventConn', 'mc.cfg', 900, nw, {'mc.cfg': cfg(**unitc)})
+    f_logic = ex.submit(tlc.run, 'EventConn', 'mc.cfg', nw, 900, {'mc.cfg': cfg(**logic)})
+    f_wfull = ex.submit(tlc.run, 'EventConnWriters', 'w.cfg', nw, 900, {'w.cfg': WCFG % dict(eager='FALSE', **wfull)})
+    f_wrep = ex.submit(tlc.dump_graph, 'EventConnWriters', 'w.cfg', 900, nw, {'w.cfg': WCFG % dict(eager='TRUE', **wrep)})
+    f_sim = ex.submit(tlc.simulate, 'EventConn', 'mc.cfg', 30 if quick else 300, 80, ck.seed, 600,
+                      {'mc.cfg': cfg(**simc)})
+    wd = tlc.scratch('vec')
+    try:
+        # ---- harness run A (needs only the simulation runs): the real pipe under environment scripts from TLC simulation
+        #      and the seed, the free-running parts, the probes; then validation of the recorded write-loop traces.
+        #      It runs while the state graphs are still being computed.
+        sres, behs = f_sim.result()
+        jobA = dict(job)
+        jobA['pipe'] = build_pipe(ck, rng, tier, behs, simc['ends'])
+        jobA['e2e'], jobA['burst'] = build_e2e(ck, rng, tier)
+        jobA['trace_file'] = os.path.join(wd, 'wtrace.ndjson')
+        ck.cov['pipe_scripts_from_tlc_simulation'] = len(behs)
+        hto = 300 if quick else 2400
+
+        def run_a():
+            wda = os.path.join(wd, 'a')
+            os.makedirs(wda)
+            ga = gorun.run_harness(TEST, HARNESS, INSTR, inputs={'job': jobA}, timeout=hto, workdir=wda)
+            tv = None
+            if ga.result and ga.result.get('complete') and not ga.result.get('violations') \
+                    and os.path.exists(jobA['trace_file']):
+                tv = run_trace_validation(jobA['trace_file'])
+            return ga, tv
+        f_a = ex.submit(run_a)
+
         res, nodes, edges, inits = f_small.result()
         res2, nodes2, edges2, inits2 = f_small2.result() if f_small2 else (None, None, None, None)
         res3, nodes3, edges3, inits3 = f_unit.result()
         res4 = f_logic.result()
         resw = f_wfull.result()
         resw2, nodesw, edgesw, initsw = f_wrep.result()
-        sres, behs = f_sim.result()
-    ck.log('TLC runs done')
+        ck.log('TLC runs done')
 
-    # ---- 1. design verdict + window replay, byte scale: write loop x kernel x read window, all kernel answers
-    if not tlc_ok(ck, res, edges, 'EventConn byte scale'):
-        return ck.finish()
-    ck.add('states', res.distinct)
-    ck.add('transitions', len(edges))
-    ck.cov['exhaustive'] = True
-    ck.cov['tlc_configs'].append('EventConn N=%(N)d MsgEnds=%(ends)s SockCap=%(cap)d InitLen=%(init)d, any read/write split, '
-                                 'any consumption' % small + ': %d distinct states, %d transitions, depth %d, %.1fs'
-                                 % (res.distinct, len(edges), res.depth, res.wall))
-    scheds, states, remaining, _ = window_schedules(nodes, edges, inits, rng, 1, small['init'], small['N'], 'bytes')
-    merge_states(job['states'], scheds, states)
-    job['window'] += scheds
-    ck.cov['byte_scale_cover_paths'] = len(scheds)
-    ck.cov['byte_scale_edges_uncovered'] = remaining
-    sample_sched = scheds[len(scheds) // 2] if scheds else None
-
-    # a second byte-scale instance: 1-byte initial buffer, three messages, exact capacity 3 (more expansion / compaction)
-    if res2 is not None:
-        if not tlc_ok(ck, res2, edges2, 'EventConn byte scale (reader centred)'):
+        # ---- 1. design verdict + window replay, byte scale: write loop x kernel x read window, all kernel answers
+        if not tlc_ok(ck, res, edges, 'EventConn byte scale'):
             return ck.finish()
-        ck.add('states', res2.distinct)
-        ck.add('transitions', len(edges2))
-        ck.cov['tlc_configs'].append('EventConn reader-centred N=6 MsgEnds={1,4,6} SockCap=3 InitLen=1: %d distinct states, '
-                                     '%d transitions, depth %d, %.1fs' % (res2.distinct, len(edges2), res2.depth, res2.wall))
-        scheds2, states2, remaining2, _ = window_schedules(nodes2, edges2, inits2, rng, 1, 1, 6, 'bytes1')
-        merge_states(job['states'], scheds2, states2)
-        job['window'] += scheds2
-        ck.cov['byte_scale_cover_paths'] += len(scheds2)
-        ck.cov['byte_scale_edges_uncovered'] += remaining2
+        ck.add('states', res.distinct)
+        ck.add('transitions', len(edges))
+        ck.cov['exhaustive'] = True
+        ck.cov['tlc_configs'].append('EventConn N=%(N)d MsgEnds=%(ends)s SockCap=%(cap)d InitLen=%(init)d, any read/write split, '
+                                     'any consumption' % small + ': %d distinct states, %d transitions, depth %d, %.1fs'
+                                     % (res.distinct, len(edges), res.depth, res.wall))
+        scheds, states, remaining, _ = window_schedules(nodes, edges, inits, rng, 1, small['init'], small['N'], 'bytes')
+        merge_states(job['states'], scheds, states)
+        job['window'] += scheds
+        ck.cov['byte_scale_cover_paths'] = len(scheds)
+        ck.cov['byte_scale_edges_uncovered'] = remaining
+        sample_sched = scheds[len(scheds) // 2] if scheds else None
 
-    # ---- 2. the same specification with the code's literals in 512 KiB units (Threshold 2 = 1 MiB, ShrinkMin 8 = 4 MiB)
-    if not tlc_ok(ck, res3, edges3, 'EventConn unit scale'):
-        return ck.finish()
-    ck.add('states', res3.distinct)
-    ck.add('transitions', len(edges3))
-    ck.cov['tlc_configs'].append('EventConn 512KiB-unit instance N=10 InitLen=1 Threshold=2 ShrinkMin=8 MaxRead=2: %d distinct '
-                                 'states, %d transitions, depth %d, %.1fs' % (res3.distinct, len(edges3), res3.depth, res3.wall))
-    blen = {}
+        # a second byte-scale instance: 1-byte initial buffer, three messages, exact capacity 3 (more expansion / compaction)
+        if res2 is not None:
+            if not tlc_ok(ck, res2, edges2, 'EventConn byte scale (reader centred)'):
+                return ck.finish()
+            ck.add('states', res2.distinct)
+            ck.add('transitions', len(edges2))
+            ck.cov['tlc_configs'].append('EventConn reader-centred N=6 MsgEnds={1,4,6} SockCap=3 InitLen=1: %d distinct states, '
+                                         '%d transitions, depth %d, %.1fs' % (res2.distinct, len(edges2), res2.depth, res2.wall))
+            scheds2, states2, remaining2, _ = window_schedules(nodes2, edges2, inits2, rng, 1, 1, 6, 'bytes1')
+            merge_states(job['states'], scheds2, states2)
+            job['window'] += scheds2
+            ck.cov['byte_scale_cover_paths'] += len(scheds2)
+            ck.cov['byte_scale_edges_uncovered'] += remaining2
 
-    def buflen(nid):
-        if nid not in blen:
-            m = re.search(r'buf = <<(.*?)>>', nodes3[nid], re.S)
-            blen[nid] = m.group(1).count(',') + 1 if m and m.group(1).strip() else 0
-        return blen[nid]
+        # ---- 2. the same specification with the code's literals in 512 KiB units (Threshold 2 = 1 MiB, ShrinkMin 8 = 4 MiB)
+        if not tlc_ok(ck, res3, edges3, 'EventConn unit scale'):
+            return ck.finish()
+        ck.add('states', res3.distinct)
+        ck.add('transitions', len(edges3))
+        ck.cov['tlc_configs'].append('EventConn 512KiB-unit instance N=10 InitLen=1 Threshold=2 ShrinkMin=8 MaxRead=2: %d distinct '
+                                     'states, %d transitions, depth %d, %.1fs' % (res3.distinct, len(edges3), res3.depth, res3.wall))
+        blen = {}
 
-    def prefer3(path, labels):
-        sc = 0
-        for e in path:
-            s_, d_, lab = edges3[e]
-            if lab.startswith('RCallback'):
-                if buflen(d_) < buflen(s_):
-                    sc += 5
-                if 'rpc = "top"' in nodes3[d_]:
-                    sc += 1
-                if buflen(s_) > 8 and not re.search(r'/\\ rs = 0\b', nodes3[d_]):
-                    sc += 3          # partial consumption while the buffer is beyond the shrink limit
-        return sc
+        def buflen(nid):
+            if nid not in blen:
+                m = re.search(r'buf = <<(.*?)>>', nodes3[nid], re.S)
+                blen[nid] = m.group(1).count(',') + 1 if m and m.group(1).strip() else 0
+            return blen[nid]
 
-    nsel = 40 if quick else 400
-    scheds3, states3, remaining3, _ = window_schedules(nodes3, edges3, inits3, rng, UNIT, 1, 10, 'unit', max_paths=nsel,
-                                                       prefer=prefer3)
-    merge_states(job['states'], scheds3, states3)
-    job['window'] += scheds3
-    ck.cov['unit_scale_paths_replayed'] = len(scheds3)
+        def prefer3(path, labels):
+            sc = 0
+            for e in path:
+                s_, d_, lab = edges3[e]
+                if lab.startswith('RCallback'):
+                    if buflen(d_) < buflen(s_):
+                        sc += 5
+                    if 'rpc = "top"' in nodes3[d_]:
+                        sc += 1
+                    if buflen(s_) > 8 and not re.search(r'/\\ rs = 0\b', nodes3[d_]):
+                        sc += 3          # partial consumption while the buffer is beyond the shrink limit
+            return sc
 
-    # ---- 3. scaled-down literals (Threshold 3, ShrinkMin 4) with every kernel answer: the threshold / shrink logic itself
-    if res4.violation or not res4.ok:
-        ck.inconc('TLC on EventConn (scaled literals): %s' % (res4.violation or res4.error or 'timeout'))
-        return ck.finish()
-    ck.add('states', res4.distinct)
-    ck.add('transitions', res4.generated)
-    ck.cov['tlc_configs'].append('EventConn scaled literals N=%d Threshold=3 ShrinkMin=4 SockCap=3 SockMin=2 (fuzzy capacity): '
-                                 '%d distinct states, depth %d, %.1fs' % (logic['N'], res4.distinct, res4.depth, res4.wall))
+        nsel = 40 if quick else 400
+        scheds3, states3, remaining3, _ = window_schedules(nodes3, edges3, inits3, rng, UNIT, 1, 10, 'unit', max_paths=nsel,
+                                                           prefer=prefer3)
+        merge_states(job['states'], scheds3, states3)
+        job['window'] += scheds3
+        ck.cov['unit_scale_paths_replayed'] = len(scheds3)
 
-    # ---- 4. writer protocol
-    if not writers_part(ck, job, rng, tier, resw, wfull, resw2, nodesw, edgesw, initsw, wrep):
-        return ck.finish()
+        # ---- 3. scaled-down literals (Threshold 3, ShrinkMin 4) with every kernel answer: the threshold / shrink logic itself
+        if res4.violation or not res4.ok:
+            ck.inconc('TLC on EventConn (scaled literals): %s' % (res4.violation or res4.error or 'timeout'))
+            return ck.finish()
+        ck.add('states', res4.distinct)
+        ck.add('transitions', res4.generated)
+        ck.cov['tlc_configs'].append('EventConn scaled literals N=%d Threshold=3 ShrinkMin=4 SockCap=3 SockMin=2 (fuzzy capacity): '
+                                     '%d distinct states, depth %d, %.1fs' % (logic['N'], res4.distinct, res4.depth, res4.wall))
 
-    # ---- 5. environment scripts for the real pipe from TLC simulation runs
-    job['pipe'] = build_pipe(ck, rng, tier, behs, simc['ends'])
-    ck.cov['pipe_scripts_from_tlc_simulation'] = len(behs)
-    job['e2e'], job['burst'] = build_e2e(ck, rng, tier)
+        # ---- 4. writer protocol
+        if not writers_part(ck, job, rng, tier, resw, wfull, resw2, nodesw, edgesw, initsw, wrep):
+            return ck.finish()
 
-    wd = tlc.scratch('vec')
-    try:
-        job['trace_file'] = os.path.join(wd, 'wtrace.ndjson')
-        ck.log('harness: %d window behaviours, %d pipe scripts, %d writer schedules, %d e2e, %d bursts'
-               % (len(job['window']), len(job['pipe']), len(job['writers']), len(job['e2e']), len(job['burst'])))
-        g = gorun.run_harness(TEST, HARNESS, INSTR, inputs={'job': job}, timeout=240 if tier == 'quick' else 2400, workdir=wd)
-        if g.result is None or not g.result.get('complete'):
+        # ---- harness run B: window replay + writer protocol replay
+        jobB = dict(job)
+        jobB['probes'] = []
+        ck.log('harness: %d window behaviours, %d writer schedules | %d pipe scripts, %d e2e, %d bursts (already running)'
+               % (len(job['window']), len(job['writers']), len(jobA['pipe']), len(jobA['e2e']), len(jobA['burst'])))
+        wdb = os.path.join(wd, 'b')
+        os.makedirs(wdb)
+        gb = gorun.run_harness(TEST, HARNESS, INSTR, inputs={'job': jobB}, timeout=hto, workdir=wdb)
+        ga, tv = f_a.result()
+        job['pipe'], job['e2e'], job['burst'] = jobA['pipe'], jobA['e2e'], jobA['burst']
+        merged = {}
+        bad = False
+        for g, jb in ((gb, jobB), (ga, jobA)):
             if g.result:
-                absorb(ck, g.result)          # what the parts before the crash found
-            crashed = crash_verdict(ck, g, job)
-            if not crashed and not ck.violations:
-                ck.inconc('harness did not finish (rc=%d): %s' % (g.rc, g.out[-1500:]))
-            if not ck.violations and not ck.inconclusive:
-                ck.inconc('harness did not finish')
-            ck.add('traces_validated_against_impl', 0)
-            if sample_sched:
-                ck.sample({'tlc_behaviour_replayed_on_real_onReadReady': sample_sched['name']})
-            return ck.finish()
-        r = g.result
-        absorb(ck, r)
-        for k in ('win_replayed', 'win_conforming', 'win_steps', 'win_callbacks', 'win_compared', 'win_expands',
-                  'win_shrinks', 'win_threshold_callbacks', 'pipe_run', 'pipe_syscalls', 'pipe_partial_writes',
-                  'pipe_eagain', 'pipe_blocked_waits', 'pipe_bytes', 'pipe_distinct_kernel_patterns', 'e2e_run',
-                  'e2e_events', 'e2e_bytes', 'e2e_callbacks', 'e2e_partial_consumptions', 'burst_run', 'burst_max_buffer',
-                  'burst_shrinks', 'burst_threshold_callbacks', 'wr_replayed', 'wr_conforming', 'wr_steps'):
-            ck.cov[k] = r.get(k, 0)
-        ck.add('traces_validated_against_impl', r.get('win_conforming', 0) + r.get('wr_conforming', 0))
-        ck.cov['instrumentation'] = g.report
-        ck.cov['harness_times_ms'] = r.get('times_ms')
-        ck.cov['harness_wall_s'] = round(g.wall, 1)
+                absorb(ck, g.result)
+            if g.result is None or not g.result.get('complete'):
+                bad = True
+                if not crash_verdict(ck, g, jb) and not ck.violations:
+                    ck.inconc('harness did not finish (rc=%d): %s' % (g.rc, g.out[-1500:]))
+            for k, v in (g.result or {}).items():
+                if isinstance(v, int) and not isinstance(v, bool):
+                    merged[k] = merged.get(k, 0) + v
         if sample_sched:
             ck.sample({'tlc_behaviour_replayed_on_real_onReadReady': sample_sched['name'],
                        'steps[op(1 RStart,2 RTop,3 RSys n,4 REagain,5 RCallback k,0 writer/kernel),arg,state]':
                            sample_sched['steps'][:40]})
-        for s in r.get('samples') or []:
-            ck.sample(s)
+        if bad:
+            if not ck.violations and not ck.inconclusive:
+                ck.inconc('harness did not finish')
+            ck.add('traces_validated_against_impl', 0)
+            return ck.finish()
+        for k in ('win_replayed', 'win_conforming', 'win_steps', 'win_callbacks', 'win_compared', 'win_expands',
+                  'win_shrinks', 'win_threshold_callbacks', 'pipe_run', 'pipe_syscalls', 'pipe_partial_writes',
+                  'pipe_eagain', 'pipe_blocked_waits', 'pipe_bytes', 'e2e_run',
+                  'e2e_events', 'e2e_bytes', 'e2e_callbacks', 'e2e_partial_consumptions', 'burst_run',
+                  'burst_shrinks', 'burst_threshold_callbacks', 'wr_replayed', 'wr_conforming', 'wr_steps'):
+            ck.cov[k] = merged.get(k, 0)
+        ck.cov['pipe_distinct_kernel_patterns'] = ga.result.get('pipe_distinct_kernel_patterns', 0)
+        ck.cov['burst_max_buffer'] = ga.result.get('burst_max_buffer', 0)
+        ck.add('traces_validated_against_impl', merged.get('win_conforming', 0) + merged.get('wr_conforming', 0))
+        ck.cov['instrumentation'] = gb.report
+        ck.cov['harness_times_ms'] = {'A': ga.result.get('times_ms'), 'B': gb.result.get('times_ms')}
+        ck.cov['harness_wall_s'] = {'A': round(ga.wall, 1), 'B': round(gb.wall, 1)}
+        for smp in ga.result.get('samples') or []:
+            ck.sample(smp)
         if job['e2e']:
             ck.sample({'e2e_config': job['e2e'][0]})
-        handle_probes(ck, r, known)
-        if not r.get('violations') and os.path.exists(job['trace_file']):
-            run_trace_validation(ck, job['trace_file'], wd)
+        handle_probes(ck, ga.result, known)
+        apply_trace_validation(ck, tv)
     finally:
+        ex.shutdown(wait=True)
         shutil.rmtree(wd, ignore_errors=True)
 
     # ---- 6. thorough: the race-detector build (event_dispatcher_race_linux.go) under the same window / e2e / burst jobs,
@@ -585,12 +621,25 @@ def thorough(ck, job, rng):
     ck.cov['race_build_window_replayed'] = g.result.get('win_replayed', 0)
     ck.cov['race_build_window_conforming'] = g.result.get('win_conforming', 0)
     ck.cov['race_build_e2e_run'] = g.result.get('e2e_run', 0)
-    ck.cov['race_detector_reports'] = g.out.count('WARNING: DATA RACE')
+    nrace = g.out.count('WARNING: DATA RACE')
+    ck.cov['race_detector_reports'] = nrace
+    if nrace:
+        blocks = re.findall(r'WARNING: DATA RACE\n(.*?)\n\n(.*?)\n\n', g.out, re.S)
+        kinds = set()
+        for a, b in blocks:
+            fa = [l.strip() for l in a.split('\n') if 'shmipc-go.' in l][:2]
+            fb = [l.strip() for l in b.split('\n') if 'shmipc-go.' in l][:2]
+            kinds.add(' / '.join(x.split('shmipc-go.')[-1] for x in fa) + '  vs  ' + ' / '.join(x.split('shmipc-go.')[-1] for x in fb))
+        ck.cov['race_detector_report_kinds'] = sorted(kinds)
+        ck.notes.append('the race detector reported %d races in the -race run; kinds: %s. close(onWriteReadyCh) in deferredClose '
+                        'vs asyncNotify in onWriteReady is a race of the library\'s close path (outside C18: close is not '
+                        'quantified; see NOTES)' % (nrace, '; '.join(sorted(kinds))))
     ck.add('traces_validated_against_impl', g.result.get('win_conforming', 0))
 
 
 def do_replay(ck, path):
-    rep = json.load(open(path))
+    rep_file = json.load(open(path))
+    rep = json.loads(json.dumps(rep_file))     # worked on below; the file content is what gets re-written on a violation
     part = rep.get('part')
     job = {'instr': True, 'states': [], 'window': [], 'pipe': [], 'e2e': [], 'burst': [], 'writers': [], 'wstates': [],
            'probes': []}
@@ -628,8 +677,8 @@ def do_replay(ck, path):
         return ck.finish()
     ck.cov['evaluations'] = 1
     for v in g.result.get('violations') or []:
-        ck.violation('%s/%s: %s' % (v['part'], v['kind'], v['detail']), rep, name=os.path.basename(path))
+        ck.violation('%s/%s: %s' % (v['part'], v['kind'], v['detail']), rep_file, name=os.path.basename(path))
     pr = g.result.get('probes') or {}
     if part == 'probe' and pr.get(rep['probe'], 'ok') != 'ok':
-        ck.violation('probe %s: %s' % (rep['probe'], pr[rep['probe']]), rep, name=os.path.basename(path))
+        ck.violation('probe %s: %s' % (rep['probe'], pr[rep['probe']]), rep_file, name=os.path.basename(path))
     return ck.finish()
